@@ -254,6 +254,37 @@ reg("C20", "model_checking",
     SCHED_TECH, "5/C20")
 
 
+STORE_TECH = "TLA+ spec + TLC exhaustive checking (and liveness); state-graph path replay on the real stores; TLC trace validation + observer"
+
+reg("C16", "model_checking",
+    "TLC checks EventLog.tla (append = read last sequence and write last+1 atomically, condition-variable wake-ups with a "
+    "FIFO ready queue, snapshot batches, poll time-outs, reconnects) for all interleavings, cursors -1..n and terminal "
+    "positions in the memory, sqlite and polling styles: sequence numbering, exact ordered once-only delivery above the "
+    "cursor ending at the first terminal event, no lost wake-up, liveness under weak fairness. Covering paths of the state "
+    "graph are executed on the real MemoryWorkflowStore, SqliteWorkflowStore, the polling default and through "
+    "_WorkflowAPI._stream_events (after_sequence / now / Last-Event-ID / 204); every recording is validated by TLC against "
+    "TraceEventLog and judged by Obs_C16, including memory-vs-sqlite agreement.",
+    "Bounded to 1-2 subscribers and 3-5 events; single asyncio loop with atomic append; starlette faked at the API layer; the "
+    "thorough 2-subscriber graph is sampled for replay; sqlite files on tmpfs.",
+    STORE_TECH, "5/C16")
+reg("C24", "model_checking",
+    "TLC checks HandlerStore.tla: for every table contents and 1200 filter combinations the code-shaped query and delete "
+    "predicates of both stores equal the statement; for all histories of upserts, status updates and deletes up to the bound "
+    "with max_completed in {0,1,2,None} the retention rule holds. Covering paths are replayed on the real MemoryWorkflowStore "
+    "and SqliteWorkflowStore with contents read directly, filter batteries run on both stores; TLC judges with Obs_C24 and "
+    "validates against TraceHandlerStore.",
+    "2-3 ids, 1-2 workflow names, unique run_id per handler; zero-filter delete is not judged; both readings of 'most recently "
+    "completed' accepted; the thorough replay graph is smaller than the model-checked instance.",
+    STORE_TECH, "5/C24")
+reg("C21", "model_checking",
+    "TLC checks ConnMode.tla, the product of a per-call-connection and a single-connection store over handler, event, tick "
+    "and state-store operations: equal results in both modes. Covering paths are replayed on real SqliteWorkflowStore objects "
+    "in both modes (plus a masked-close mode), together with covering subsets of the C16 schedules and C24 histories; judged by "
+    "Obs_C21 and validated against TraceConnMode.",
+    "One handler and one run per history, DictState keys a/b; the AgentCore entrypoint is not run, only its store configuration.",
+    STORE_TECH, "5/C21")
+
+
 def build():
     props = [json.loads(l) for l in (ROOT / "properties.jsonl").read_text().splitlines() if l.strip()]
     checks, na = [], []
